@@ -438,19 +438,12 @@ let dispatch mode f =
       | (TDir (DDb | DDw | DAssert), l) :: r when int_of_n l.line = want -> Some r
       | _ :: r -> find r in
     let at l = Printf.sprintf "%d:%d" (int_of_n l.line) (int_of_n l.col) in
-    (* operands before the one asked for: a string, or an expression, each followed by a comma *)
-    let rec skipn k r =
-      if k = 0 then Some r else
-        let after = (match r with
-            | (TString _, _) :: r' -> Some r'
-            | _ -> (match lptree r with LOk (_, _, _, r') -> Some r' | _ -> None)) in
-        (match after with
-         | Some ((TSym SyComma, _) :: r') -> skipn (k - 1) r'
-         | _ -> None) in
-    (match (match find lts with None -> None | Some r -> skipn (int_of_string skip) r) with
+    (* the operand asked for: OperandLoc.loperand reads the operands before it (a string or an expression, each followed
+       by a comma) *)
+    (match (match find lts with None -> None | Some r -> loperand (nat_of_int (int_of_string skip)) r) with
      | None -> "NOSTMT"
-     | Some r ->
-       (match lptree r with
+     | Some res ->
+       (match res with
         | LOk (_, l, ms, _) ->
           "OK " ^ at l ^ String.concat "" (List.map (fun ((_, s), ml) -> " " ^ hex_of_bytes s ^ "@" ^ at ml) ms)
         | LDiag _ -> "DIAG"
